@@ -133,6 +133,17 @@ def judge_refuse(ctx, case):
             w = BaseWallet.from_extended_key(pub.xpub(rb32.version_for("pub", case["testnet"], case.get("vpurpose", 44))))
             comps = [str(c) for c in case["prefix"]] + [case["spelling"] % (i - H)]
             r = w.by_path(case.get("root", "M") + "/" + "/".join(comps))
+        elif via in ("prv-class-parse-xpub", "prv-class-ctor-sec"):
+            # public-only data loaded through the PRIVATE node class (PrvKeyNode.parse(<xpub>), which from_extended_key does
+            # itself to read the version, or PrvKeyNode(key=<33-byte SEC>)): it is still public-only data - a hardened child
+            # must not come out of it (refusing already at parse / construction is a refusal too)
+            from btc_hd_wallet.bip32 import PrvKeyNode
+            if via == "prv-class-parse-xpub":
+                pn = PrvKeyNode.parse(pub.xpub(rb32.version_for("pub", case["testnet"], case.get("vpurpose", 44))), testnet=case["testnet"])
+            else:
+                pn = PrvKeyNode(key=pub.sec(), chain_code=pub.c, index=pub.index, depth=pub.depth, testnet=case["testnet"], parent_fingerprint=pub.pfp)
+            r = pn.ckd(index=i)
+            r.extended_public_key()
         elif via == "generate_children_descending":
             # the interval is handed to range(): a third element (a step) has always been honoured - a listing that walks DOWN
             # from a hardened index into the normal range asks for hardened children as well
@@ -390,7 +401,9 @@ def run(ctx):
             if case["via"] == "generate_children_straddle":
                 case["index"] = H + rnd.randrange(0, 3)
                 case["below"] = rnd.randrange(1, 4)
-            if rnd.random() < 0.12:
+            if rnd.random() < 0.1:
+                case["via"] = rnd.choice(["prv-class-parse-xpub", "prv-class-ctor-sec"])
+            elif rnd.random() < 0.12:
                 case["via"] = "generate_children_descending"
                 case["index"] = H + rnd.randrange(0, 4)
                 case["below"] = rnd.randrange(1, 4)
